@@ -75,6 +75,8 @@ Definition names_bound_once : bool :=
       streq (a_value l) "(xl.copy(), xu.copy(), objfun)" && Z.eqb (a_index l) 0 && streq (a_target l) "xl_orig" &&
       streq (a_value u) "(xl.copy(), xu.copy(), objfun)" && Z.eqb (a_index u) 1 && streq (a_target u) "xu_orig" &&
       Z.ltb (a_line o) (a_line w) &&
+      (* the wrapper is installed unconditionally (no enclosing `if`; only fall-through of early returns) *)
+      forallb (fun g => negb (fst g)) (a_guards w) && forallb (fun g => negb (fst g)) (a_guards o) &&
       (* bound before the first run and before any scaling of xl/xu *)
       forallb (fun c => Z.ltb (a_line w) (c_line c) && streq (List.hd "" (c_args c)) "objfun")
               (filter (fun c => streq (c_func c) "solve") (calls_of T_calls "solve_main"))
